@@ -329,7 +329,9 @@ pub fn make_providers(leap: &LeapTable) -> Providers {
                 2 => s.push_str(&format!("{ts}      {d}      # 1 Jan 1972\n\n")),
                 3 => s.push_str(&format!("{ts}\t{d}\n# interleaved comment {i}\n")),
                 4 => s.push_str(&format!("{ts}\t{d}\t#\t1\tJan\t1972\r\n")),
-                _ => s.push_str(&format!("{ts}\t \t{d} \t # x\n")),
+                5 => s.push_str(&format!("{ts}\t \t{d} \t # x\n")),
+                // blank lines that hold white space only ("A blank line should be ignored"), an indented comment line
+                _ => s.push_str(&format!("{ts}\t{d}\t# entry {i}\n{}", ["   \n", "\t\n", " # indented comment\n", " \t \n"][i % 4])),
             }
         }
         if style == 0 {
@@ -346,7 +348,7 @@ pub fn make_providers(leap: &LeapTable) -> Providers {
         });
         files.push((format!("prefix_{n:02}"), f, leap.from_prefix(n)));
     }
-    for style in 1..=5 {
+    for style in 1..=6 {
         let path = format!("{dir}/style_{style}.list");
         std::fs::write(&path, render(&leap.entries, style)).expect("write provider file");
         match LeapSecondsFile::from_path(&path) {
@@ -532,7 +534,7 @@ pub fn run(rep: &mut Report) {
     let deep = !rep.quick();
     let q = false;
     let leap = load();
-    rep.rule = "built-in table, reverse iteration, indexing and the file provider against the IERS list parsed from data/leap-seconds.list and naif0012.txt; UTC and TAI instants: every whole second from -45 s to +85 s around each of the 28 IERS and 14 SOFA entries x sub-second offsets {0, 1 ns, 1/2 s, 1 s - 1 ns}, windows of every nanosecond round each entry, the duration lattice within +-10 500 years; stateright BFS over sequences mixing conversions among UTC/TAI/GPST/TT with +- steps from states next to four table entries; providers: files written for every prefix of the IERS list (0..28 entries) and 5 format variants x the instants x scales. Oracle: table lookup on integers; TAI->UTC defined as the inverse of UTC->TAI, inside an inserted interval only the two holding values are accepted (the current convention is known finding D37). Non-trivial = within 90 s of an entry.".into();
+    rep.rule = "built-in table, reverse iteration, indexing and the file provider against the IERS list parsed from data/leap-seconds.list and naif0012.txt; UTC and TAI instants: every whole second from -45 s to +85 s around each of the 28 IERS and 14 SOFA entries x sub-second offsets {0, 1 ns, 1/2 s, 1 s - 1 ns}, windows of every nanosecond round each entry, the duration lattice within +-10 500 years; stateright BFS over sequences mixing conversions among UTC/TAI/GPST/TT with +- steps from states next to four table entries; providers: files written for every prefix of the IERS list (0..28 entries) and 6 format variants x the instants x scales. Oracle: table lookup on integers; TAI->UTC defined as the inverse of UTC->TAI, inside an inserted interval only the two holding values are accepted (the current convention is known finding D37). Non-trivial = within 90 s of an entry.".into();
     rep.assumptions = vec!["the two shipped data files agree with each other and with the 28-entry digest in the harness (checked at start-up; a mismatch is a machinery error)".into()];
     sweep(rep, "c06.table", 4, |i, out| j_table(if i == 3 { 3 } else if i == 2 { 4 } else { i }, &leap, out));
     // the UTC constructors from a float count or a duration: a UTC epoch with exactly that elapsed UTC time
